@@ -1,0 +1,88 @@
+//go:build verif
+
+// Contracts for the deductive verifier in /verif (gocv); comments only.
+
+package filter
+
+// The probe sequence of the bloom filter: k probes kh, kh+delta, kh+2*delta, ... (mod 2^32), reduced mod nBits.
+//@ spec func hashv(b bytes) uint32 = hashfn(b, 3164544308)
+//@ spec func delta(h uint32) uint32 = (h >> 17) | (h << 15)
+//@ spec func khAt(h uint32, j uint8) uint32 rec = j == 0 ? h : khAt(h, j-1) + delta(h)
+//@ spec func bitset(f []byte, p uint32) bool = ((f[p/8] >> (p%8)) & 1) == 1
+
+// A filter policy (possibly user supplied) is external: Contains is a fixed function of filter bytes and key;
+// Add records the key (uninterpreted predicate fadded) and Generate appends to the buffer.
+//@ spec func fcontains(f bytes, k bytes) bool
+//@ spec func fadded(k bytes) bool
+//@ interface filter.Filter.Contains
+//@   pure
+//@   ensures result == fcontains(filter, key)
+//@ interface filter.FilterGenerator.Add
+//@   pure
+//@   ensures fadded(key)
+//@ interface filter.FilterGenerator.Generate
+//@   params b
+//@   effects F$util.Buffer.buf F$util.Buffer.off M$uint8
+//@   requires bwf(b)
+//@   ensures bwf(b) && len(b.buf) - b.off >= len(old(b.buf)) - old(b.off)
+//@   modifies b.buf, b.off, allbytes
+
+// filter.Buffer: Alloc(n) returns exactly n bytes of fresh space.
+//@ interface filter.Buffer.Alloc
+//@   pure
+//@   ensures len(result) == n && freshbase(result)
+
+//@ func bloomHash
+//@   props C16
+//@   mode bv
+//@   safety on
+//@   ensures result == hashv(key)
+
+//@ func (bloomFilter).NewGenerator
+//@   props C16
+//@   mode bv
+//@   safety on
+//@   guarantees [k-range] 1 <= k && k <= 30
+
+//@ func (*bloomFilterGenerator).Add
+//@   props C16
+//@   mode bv
+//@   safety on
+//@   ensures len(g.keyHashes) == len(old(g.keyHashes)) + 1
+//@   ensures g.keyHashes[len(g.keyHashes)-1] == hashv(key)
+//@   ensures forall i int :: 0 <= i && i < len(old(g.keyHashes)) ==> g.keyHashes[i] == old(g.keyHashes)[i]
+//@   ensures g.k == old(g.k) && g.n == old(g.n)
+
+//@ func (bloomFilter).Contains
+//@   props C16
+//@   mode bv
+//@   safety on
+//@   requires len(filter) <= 536870912
+//@   loop 1
+//@     invariant j <= k && kh == khAt(hashv(key), j) && delta == delta(hashv(key))
+//@     invariant forall q uint8 :: q < j ==> bitset(filter, khAt(hashv(key), q) % nBits)
+//@     decreases k - j
+//@   ensures [reserved-k] (len(filter) >= 2 && filter[len(filter)-1] > 30) ==> result
+//@   ensures [all-probes-set] (len(filter) >= 2 && filter[len(filter)-1] <= 30 && (forall q uint8 :: q < filter[len(filter)-1] ==> bitset(filter, khAt(hashv(key), q) % (uint32(len(filter)-1)*8)))) ==> result
+
+//@ func (*bloomFilterGenerator).Generate
+//@   props C16
+//@   mode bv
+//@   safety on
+//@   requires g.k >= 1 && g.k <= 30 && g.n >= 0
+//@   requires len(g.keyHashes) * g.n >= 0 && len(g.keyHashes) * g.n < 4294967288
+//@   loop 1
+//@     invariant len(dest) == int(nBytes) + 1 && nBits == nBytes*8 && nBytes >= 8 && nBytes <= 536870911 && dest[nBytes] == g.k
+//@     invariant g.k == old(g.k) && sameslice(g.keyHashes, old(g.keyHashes)) && base(dest) != base(g.keyHashes)
+//@     invariant [done-keys] forall i int, q uint8 :: 0 <= i && i < rangeidx && q < g.k ==> bitset(dest, khAt(old(g.keyHashes)[i], q) % nBits)
+//@   loop 2
+//@     invariant len(dest) == int(nBytes) + 1 && nBits == nBytes*8 && nBytes >= 8 && nBytes <= 536870911 && dest[nBytes] == g.k
+//@     invariant g.k == old(g.k) && sameslice(g.keyHashes, old(g.keyHashes)) && base(dest) != base(g.keyHashes)
+//@     invariant 0 <= rangeidx && rangeidx < len(g.keyHashes)
+//@     invariant j <= g.k && kh == khAt(old(g.keyHashes)[rangeidx], j) && delta == delta(old(g.keyHashes)[rangeidx])
+//@     invariant [done-keys] forall i int, q uint8 :: 0 <= i && i < rangeidx && q < g.k ==> bitset(dest, khAt(old(g.keyHashes)[i], q) % nBits)
+//@     invariant [this-key] forall q uint8 :: q < j ==> bitset(dest, khAt(old(g.keyHashes)[rangeidx], q) % nBits)
+//@     decreases g.k - j
+//@   guarantees [k-stored] dest[len(dest)-1] == old(g.k) && len(dest) >= 9
+//@   guarantees [all-added-set] forall i int, q uint8 :: 0 <= i && i < len(old(g.keyHashes)) && q < old(g.k) ==> bitset(dest, khAt(old(g.keyHashes)[i], q) % (uint32(len(dest)-1)*8))
+//@   ensures [reset] len(g.keyHashes) == 0
